@@ -431,19 +431,90 @@ example (bs : Bytes) : detwingleWith { liveCfg with table := (0xE1, [0xC3, 0xA1]
 /-- 0xE1 is in the lead-byte range, so its entry is one of the dead ones. -/
 theorem entry_E1_unreachable : liveCfg.isMarker 0xE1 = true ∧ ¬ liveCfg.Convertible 0xE1 := by decide +kernel
 
+/-- **Every embeddable Windows-1252 byte is mapped per the standards** (whole-range table obligation,
+    independent of which keys the library's table happens to have): a byte ≥ 0x80 that Windows-1252 defines
+    and that is not a possible UTF-8 lead byte (C2–F4) is *not* taken as a lead byte by the scan and *is*
+    mapped to the UTF-8 encoding of its Windows-1252 character.  Fails to build if an entry is missing
+    (0xFF in 4.13.0), wrong, or if the lead-byte ranges swallow such a byte (C0/C1). -/
+theorem embeddable_bytes_converted (b : Nat) (hb : Embeddable b) :
+    liveCfg.isMarker b = false ∧ ∃ ch, cp1252At b = some ch ∧ IsScalar ch ∧ liveCfg.conv? b = some (encodeUtf8 ch) :=
+  Cfg.embed_of_check liveCfg (by decide +kernel) b hb
+
+example : Embeddable 0x80 ∧ Embeddable 0xC0 ∧ Embeddable 0xC1 ∧ Embeddable 0xFF ∧ ¬ Embeddable 0x81 ∧ ¬ Embeddable 0xE1 := by
+  decide +kernel
+example : (List.range 256).filter (fun b => decide (Embeddable b)) = (List.range 256).filter (fun b => decide (liveCfg.Convertible b)) := by
+  decide +kernel
+
+/-- …and nothing else is ever converted: the bytes the scan replaces are exactly the embeddable ones. -/
+theorem convertible_iff_embeddable (b : Nat) : liveCfg.Convertible b ↔ Embeddable b := by
+  constructor
+  · exact Cfg.convertible_embeddable liveCfg (by decide +kernel) (by decide +kernel) b
+  · intro hb
+    obtain ⟨hm, ch, _, _, hc⟩ := embeddable_bytes_converted b hb
+    exact ⟨hm, by simp [hc]⟩
+
+/-- Whole-table obligation on `WINDOWS_1252_TO_UTF8` as generated: every one of its entries has a key in
+    0x80–0xFF, no key occurs twice, and every entry either sits in the dead lead-byte range or is the UTF-8
+    encoding of the key's Windows-1252 character. -/
+theorem windows1252_table_whole :
+    (liveCfg.table.map (·.1)).Nodup ∧
+    ∀ kv ∈ liveCfg.table, 0x80 ≤ kv.1 ∧ kv.1 < 256 ∧
+      (liveCfg.isMarker kv.1 = true ∨ ∃ ch, cp1252At kv.1 = some ch ∧ kv.2 = encodeUtf8 ch) := by
+  refine ⟨by decide +kernel, ?_⟩
+  have h : liveCfg.table.all (fun kv => decide (0x80 ≤ kv.1) && decide (kv.1 < 256) &&
+      (liveCfg.isMarker kv.1 || (match cp1252At kv.1 with | some ch => kv.2 == encodeUtf8 ch | none => false))) = true := by
+    decide +kernel
+  intro kv hkv
+  have := List.all_eq_true.mp h kv hkv
+  simp only [Bool.and_eq_true, decide_eq_true_eq, Bool.or_eq_true] at this
+  refine ⟨this.1.1, this.1.2, ?_⟩
+  rcases this.2 with hm | hv
+  · exact .inl hm
+  · right
+    split at hv
+    · rename_i ch hch; exact ⟨ch, hch, by simpa using hv⟩
+    · exact absurd hv (by simp)
+
+/-- The class attributes are exactly what the standards say: lead bytes are C2–F4 with UTF-8's sizes. -/
+theorem live_cfg_exact : liveCfg.Exact where
+  sound := live_markers_sound
+  marker_range := marker_range_of liveCfg (by decide +kernel) (by decide +kernel)
+  conv_ok := fun b hb => by
+    obtain ⟨ch, _, h2, h3⟩ := table_agrees_with_cp1252_where_reachable b hb
+    exact ⟨ch, h2, h3⟩
+
+/-- **For every byte list**: `detwingle` only ever replaces embeddable bytes by their table value —
+    `Replaced` says the output is the input, in order, with some bytes `b` (not lead bytes, having a table
+    entry) swapped for that entry; nothing is dropped, duplicated, reordered or otherwise altered.  This is
+    "all surrounding text is untouched" without any assumption on the input. -/
+theorem detwingle_only_replaces_embedded_bytes (bs out : Bytes) (h : detwingle bs = some out) :
+    Replaced liveCfg bs out :=
+  scan_replaced liveCfg 0 bs out h
+
+example : detwingle [0xE0, 0x80, 0x80, 0xC0, 0x80, 0xF0, 0x93] =
+    some [0xE0, 0x80, 0x80, 0xC3, 0x80, 0xE2, 0x82, 0xAC, 0xF0, 0x93] := of_evalsTo (by decide +kernel)
+
+/-- **For every byte list**: `detwingle` is idempotent — valid or not, truncated or not, whatever it
+    returns is returned unchanged when fed back. -/
+theorem detwingle_idempotent (bs out : Bytes) (h : detwingle bs = some out) : detwingle out = some out :=
+  scan_idem liveCfg (Cfg.selfInert_of_exact liveCfg live_cfg_exact) 0 bs out h
+
+example : detwingle [0x93, 0xE2, 0x93] = some [0xE2, 0x80, 0x9C, 0xE2, 0x93] := of_evalsTo (by decide +kernel)
+example : detwingle [0xE2, 0x80, 0x9C, 0xE2, 0x93] = some [0xE2, 0x80, 0x9C, 0xE2, 0x93] := of_evalsTo (by decide +kernel)
+
 /-- **UTF-8 text with embedded single Windows-1252 bytes.**  For every input that is a concatenation of
     segments, each the UTF-8 encoding of a scalar value or a single convertible byte, the result is the
     UTF-8 encoding of the text in which each embedded byte has become its Windows-1252 character and
     every other character is unchanged, in order. -/
 theorem detwingle_embedded (ps : List Piece)
-    (h : ∀ p ∈ ps, match p with | .ch c => IsScalar c | .emb b => liveCfg.Convertible b) :
+    (h : ∀ p ∈ ps, match p with | .ch c => IsScalar c | .emb b => Embeddable b) :
     detwingle (ps.flatMap Piece.src)
       = some (utf8 (ps.map fun p => match p with | .ch c => c | .emb b => (cp1252At b).getD 0xFFFD)) := by
   have hok : ∀ p ∈ ps, p.Ok liveCfg := by
     intro p hp; have := h p hp
     cases p with
     | ch c => exact scalar_lt this
-    | emb b => exact this
+    | emb b => exact (convertible_iff_embeddable b).mpr this
   unfold detwingle detwingleWith
   rw [scan_pieces liveCfg live_markers_sound ps hok]
   congr 1
@@ -454,12 +525,12 @@ theorem detwingle_embedded (ps : List Piece)
   cases p with
   | ch c => rfl
   | emb b =>
-    obtain ⟨ch, h1, _, h3⟩ := table_agrees_with_cp1252_where_reachable b (h _ hp)
+    obtain ⟨ch, h1, _, h3⟩ := table_agrees_with_cp1252_where_reachable b ((convertible_iff_embeddable b).mpr (h _ hp))
     simp [Piece.out, h1, h3]
 
 /-- …and that result is valid UTF-8 (and each embedded byte's character exists in Windows-1252). -/
 theorem detwingle_embedded_valid (ps : List Piece)
-    (h : ∀ p ∈ ps, match p with | .ch c => IsScalar c | .emb b => liveCfg.Convertible b) :
+    (h : ∀ p ∈ ps, match p with | .ch c => IsScalar c | .emb b => Embeddable b) :
     ∃ out, detwingle (ps.flatMap Piece.src) = some out ∧ ValidUtf8 out := by
   refine ⟨_, detwingle_embedded ps h, _, ?_, rfl⟩
   intro c hc
@@ -469,7 +540,7 @@ theorem detwingle_embedded_valid (ps : List Piece)
   cases p with
   | ch c => exact this
   | emb b =>
-    obtain ⟨ch, h1, h2, _⟩ := table_agrees_with_cp1252_where_reachable b this
+    obtain ⟨ch, h1, h2, _⟩ := table_agrees_with_cp1252_where_reachable b ((convertible_iff_embeddable b).mpr this)
     simpa [h1] using h2
 
 example : detwingle ([Piece.ch 0x61, .emb 0x93, .ch 0x20AC, .emb 0xA9].flatMap Piece.src)
@@ -497,5 +568,31 @@ example : decodeUtf8 [0xED, 0xA0, 0x80] = none := of_evalsTo (by decide +kernel)
 example : decodeUtf8 [0xC0, 0x80] = none := of_evalsTo (by decide +kernel)
 example : decodeUtf8 [0xF4, 0x90, 0x80, 0x80] = none := of_evalsTo (by decide +kernel)
 example : decodeUtf8 [0xE2, 0x82, 0xAC] = some [0x20AC] := of_evalsTo (by decide +kernel)
+
+/-- **For every byte list**: the result is valid UTF-8 *exactly when* the input is UTF-8 text with
+    embedded Windows-1252 bytes — a concatenation of encodings of scalar values and single embeddable
+    bytes.  (So overlong forms after a lead byte, truncated sequences, the five undefined bytes, stray
+    continuation-range bytes inside a multi-byte slot all leave the result invalid, and nothing else does.) -/
+theorem detwingle_output_valid_iff (bs out : Bytes) (h : detwingle bs = some out) :
+    ValidUtf8 out ↔ ∃ ps : List Piece, (∀ p ∈ ps, match p with | .ch c => IsScalar c | .emb b => Embeddable b) ∧
+      bs = ps.flatMap Piece.src := by
+  constructor
+  · intro hv
+    obtain ⟨t, ht⟩ := Option.isSome_iff_exists.mp ((valid_utf8_iff_decodes out).mp hv)
+    obtain ⟨ps, hps, hbs⟩ := scan_valid_inv liveCfg live_cfg_exact bs.length bs out t (Nat.le_refl _) h ht
+    refine ⟨ps, ?_, hbs⟩
+    intro p hp
+    have := hps p hp
+    cases p with
+    | ch c => exact this
+    | emb b => exact (convertible_iff_embeddable b).mp this
+  · rintro ⟨ps, hps, rfl⟩
+    obtain ⟨out', h1, h2⟩ := detwingle_embedded_valid ps hps
+    rw [h] at h1
+    simp only [Option.some.injEq] at h1
+    subst h1; exact h2
+
+example : ¬ ValidUtf8 [0xE0, 0x80, 0x80] := by
+  rw [valid_utf8_iff_decodes]; decide +kernel
 
 end BS.Props.C19
